@@ -13,6 +13,7 @@ CLAIMS = {
  "C02": ("proof", "NoteOff/AnalogNoteOff postconditions pin the emitted Note Off to the tracker entry at entry (never to current octave/semitone/channel/mapping, which the frame keeps out); handleKEYEvent's release clauses hold for every relation between mapping at press and at release; every state action is proved to emit nothing (frame on the ghost output trace).", "6 C02"),
  "C03": ("proof", "NoteOn/NoteOff postconditions give the exact emitted sequence per collision mode as a function of the holder counter, and lemmas over the counting invariant identify counter==0 / counter==1 with first / last holder.", "6 C03"),
  "C04": ("proof", "NoteOn's postcondition is the statement's formula in 64-bit arithmetic (base + 12*octave + semitone, silent outside 0..127, channel (ch+offset) mod 16, configured velocity); each action's contract gives unit steps / saturation / pair reset, carried through invokeActionPress (dynamic dispatch proved against the table) and handleKEYEvent.", "6 C04"),
+ "C05": ("proof", "One assertion attached to every send on the device's output channel (so new emission sites are covered): three bytes, status nibble Note Off/Note On/CC/Pitch Bend, data bytes <= 127. Discharged from the event constructors' contracts, wf (channel < 16, velocity, tracked pairs in range), cfgRanges, and for axis values from exact IEEE-754 stage facts (cut points) of handleABSEvent: normalised, centred, deadzone-shaped and flipped value ranges for ANY float64 deadzone, then 127*x -> int -> byte with amd64 conversion semantics. ParseData -> NewDevice -> ProcessEvents chain carries the configuration facts; cfgRanges of ParseData's result rests on its per-entry store-site assertions plus a write-once argument (stated, not a discharged postcondition).", "6 C05"),
  "C09": ("proof", "Zero-annotation safety sweep (nil dereference, nil-map update, index/slice bounds, division by zero, reachable panic) over ParseData, TomlKeyToEvCode, StringToNote, readDeviceConfig and LoadHIDIConfig with the decoder's output havocked to ANY value of the target struct (a superset of what any file content decodes to); all loops are range loops (structural termination). The third-party decoder itself is an assumption.", "6 C09"),
  "C10": ("proof", "Per-entry fidelity and range clauses are assertions at the map-store sites of ParseData (selected by static map type), top-level fields, defaults (velocity 0 -> 64, channel 1..16, existing default mapping), colours and cfgOK are postconditions, name fidelity of the mapping list is a loop invariant; strict decoding is a typestate obligation on the Decode call. 'What the file states' is taken at the decoded struct (decoder assumed).", "6 C10"),
  "C11": ("proof", "StringToNote is proved equivalent to the 128-name specification (accepts exactly the valid names, returns the specified number) over a byte-level string model, with the regular expression's behaviour as an assumed contract pinned to the exact pattern (hv refuses it for any other pattern); NoteToPitch/NoteToOctave contracts plus round-trip/injectivity lemmas. A bounded stand-in runs the real functions over all short strings to guard that one assumption (labelled bounded).", "6 C11"),
